@@ -26,9 +26,9 @@ CLAIMS = {
     "C07": dict(cat="proof", tech="Kani contract harnesses on codecs / CRC gate / loader + Verus on pure helpers",
                 text="Per-item codec round trips (header, instruction forms, const entries, opcode/type tags) proved loop-free over all field values on the real encoders/decoders incl. byte_len and re-encoding; CRC gate `Ok <=> crc32(payload)==trailer` at fixed lengths; truncated-instruction rejection; pure helpers (check_alignment, align_up, decode_version_from_u16) proved by Verus.",
                 note="Trusted: crc32fast == reference CRC-32 (stubbed under Kani), fmt and caller-location stubs, byteorder/Cursor executed. Truncation clause not decidable (not a CRC theorem); burst theorem machine-checked for 6-byte payloads only; loader no-panic on hostile bytes only in the thorough tier and mostly undecided (CBMC cost).", ref="4 C07"),
-    "C11": dict(cat="model_checking", tech="Kani contract harnesses on CopyMat copy loops and the dynamic horzcat/vertcat kernels",
-                text="copy_into/_v/_r/_row_major place the block at the offset and touch nothing else; HorizontalConcatenate{TwoArgs,ThreeArgs,NArgs,RDN} and VerticalConcatenate{TwoArgs,ThreeArgs,NArgs}::solve produce the block matrix in written order, operands unchanged. Bounded in block shapes; shape/kind rejection (evaluator + compile routing) not decided.",
-                note="Trusted: Kani/CBMC, nalgebra executed. Only the kernels built in the default (dynamic) configuration.", ref="4 C11"),
+    "C11": dict(cat="proof", tech="Verus contracts on the real CopyMat copy loops (transcribed onto the matrix model) and, modularly against those contracts, on the solve() bodies of the dynamic concat structs; Kani twins on real nalgebra",
+                text="CopyMat::{copy_into,copy_into_v,copy_into_r} place a block at a linear offset and copy_into_row_major places an r-row block at off + j*R + i of a column-major destination, touching nothing else, for every shape; Horizontal/VerticalConcatenate{TwoArgs,ThreeArgs,FourArgs}::solve and VerticalConcatenateVD{2,3,4}::solve are checked against those contracts (not the callee bodies): out is the block matrix of the operands in written order, later blocks never clobber earlier ones. Kani twins (bounded block shapes) additionally cover the NArgs/RDN structs. Shape/kind rejection (evaluator + compile routing) not decided.",
+                note="Assumed: nalgebra containers behave as contracts/common/matmodel.rs; elements modelled as u64; source and destination do not alias; copy_into_row_major needs dst.len + dst.nrows <= usize::MAX. Only the kernels built in the default (dynamic) configuration.", ref="4 C11"),
     "C12": dict(cat="proof", tech="Kani loop-free contract harnesses over the full domain of every ordered kind pair",
                 text="ConvertScalarToScalarBasic<F,T>::solve for all 144 ordered pairs of the primitive numeric kinds: representable => exactly that value (widen-then-narrow identity), float->int truncates toward zero and clamps, NaN -> 0; oracles avoid the cast under test. Matrix conversion / reshape / unsupported pairs not yet under contract.",
                 note="Trusted: Kani/CBMC bit-precise casts; std TryFrom as integer oracle.", ref="4 C12"),
